@@ -40,6 +40,7 @@ def spec_witness(ctx, A, B, w, shape, graded, reverse):
 
 class Compare(Contract):
     properties = ("C07",)
+    positional = ("x1", "x2", "out")
     relpath_fmt = "numpoly/array_function/{}.py"
     assumptions = ("A1: coefficients are mathematical reals (no NaN, no complex order)",
                    "kwargs == {} (extra ufunc keywords are passed through to numpy unverified)")
